@@ -72,6 +72,16 @@ def patchLen : Nat → Bytes → Nat → Nat → Bytes × Nat
 def copyWithin (res : Bytes) (dst src : Nat) : Bytes :=
   res.take dst ++ (res.drop src).take (res.length - dst)
 
+/-- number of additional length octets an ASN.1 child of `length` content bytes needs (`lenLen - 1`) -/
+def asn1Extra (length : Nat) : Nat :=
+  if length > 0xffffff then 4 else if length > 0xffff then 3 else if length > 0xff then 2
+  else if length > 0x7f then 1 else 0
+
+/-- the first length octet (`lenByte`) -/
+def asn1LenByte (length : Nat) : UInt8 :=
+  if length > 0xffffff then 0x84 else if length > 0xffff then 0x83 else if length > 0xff then 0x82
+  else if length > 0x7f then 0x81 else UInt8.ofNat length
+
 /-- `flushChild` for a child `c` of `b` whose own child is already flushed -/
 def flush (cap : Option Nat) (isASN1 : Bool) (b c : B) : Out B :=
   if c.err then .ok { b with err := true } else
@@ -80,19 +90,17 @@ def flush (cap : Option Nat) (isASN1 : Bool) (b c : B) : Out B :=
   if isASN1 then
     if c.pll != 1 then .panic true else
     if length > 0xfffffffe then .ok { b with err := true } else
-    let (lenLen, lenByte, length') : Nat × UInt8 × Nat :=
-      if length > 0xffffff then (5, 0x84, length)
-      else if length > 0xffff then (4, 0x83, length)
-      else if length > 0xff then (3, 0x82, length)
-      else if length > 0x7f then (2, 0x81, length)
-      else (1, UInt8.ofNat length, 0)
-    let res1 := c.res.set c.off lenByte
-    let extra := lenLen - 1
-    let c1 : B := if extra != 0 then add cap { c with res := res1 } (zeros extra) else { c with res := res1 }
-    if c1.err then .ok { b with err := true } else   -- (deviation 2, see header)
-    let res2 := if extra != 0 then copyWithin c1.res (c.off + c.pll + extra) (c.off + c.pll) else c1.res
-    let (res3, l) := patchLen extra res2 (c.off + 1) length'
-    if l != 0 then .ok { b with err := true } else .ok { b with res := res3 }
+    let extra := asn1Extra length
+    let res1 := c.res.set c.off (asn1LenByte length)
+    if extra = 0 then
+      -- short form: `length = 0`, `pendingLenLen = 0`: the patch loop does nothing
+      .ok { b with res := res1 }
+    else
+      let c1 := add cap { c with res := res1 } (zeros extra)
+      if c1.err then .ok { b with err := true } else   -- (deviation 2, see header)
+      let res2 := copyWithin c1.res (c.off + c.pll + extra) (c.off + c.pll)
+      let (res3, l) := patchLen extra res2 (c.off + 1) length
+      if l != 0 then .ok { b with err := true } else .ok { b with res := res3 }
   else
     let (res3, l) := patchLen c.pll c.res c.off length
     if l != 0 then .ok { b with err := true } else .ok { b with res := res3 }
@@ -224,7 +232,7 @@ def popN : Nat → List Prog → Option (List Prog)
     match simpleLen p with
     | some l => if l ≤ n + 1 then popN (n + 1 - l) stk else none
     | none => none
-termination_by n stk => stk.length
+termination_by _ stk => stk.length
 
 mutual
 def normP : Prog → Option Prog
